@@ -73,10 +73,12 @@ func edPlaceholders(run *edRun) string {
 const edSigInherited = "retract-rationale:block-comment-inherited"
 const edSigBlank = "retract-rationale:blank-line-dropped"
 const edSigCollapsed = "retract-rationale:collapse-merged-block-comment"
+const edSigOtherRoute = "retract-rationale:block-comment-other-route"
 
 func edKnownCause(sig string) bool {
 	return strings.HasSuffix(sig, ":"+edSigInherited) || strings.HasSuffix(sig, ":"+edSigCollapsed) || strings.HasSuffix(sig, ":"+edSigBlank) || strings.HasSuffix(sig, ":go-prerelease") ||
-		strings.HasSuffix(sig, ":remainder-is-marker")
+		strings.HasSuffix(sig, ":remainder-is-marker") ||
+		strings.HasSuffix(sig, ":"+edSigOtherRoute) || strings.HasSuffix(sig, ":"+edSigEmptyBlockSuffix)
 }
 
 // edRetractDetail pairs every typed retraction with the re-parsed one on the same output line and names
@@ -87,7 +89,10 @@ func edKnownCause(sig string) bool {
 //	           in a retract block whose comments the strict parser therefore attributes to it;
 //	blank:     a parsed line preceded only by a blank line (no inheritance at parse) lost that blank line;
 //	collapsed: a Cleanup of this session collapsed the one-line commented block around the line and merged
-//	           the block's comments into it (re-parsed = block text [+ "\n" + typed]).
+//	           the block's comments into it (re-parsed = block text [+ "\n" + typed]);
+//	other-route: any other mismatch that meets the root-cause test (typed and re-parsed differ exactly by the
+//	           comment text of a commented retract block that encloses or enclosed the line, own comments equal);
+//	empty-block-suffix-comment: the block's END-OF-LINE comments were appended to the line by a collapse.
 func edRetractDetail(run *edRun) string {
 	if run.Mod == nil {
 		return "" // go.work has no retractions
@@ -128,28 +133,58 @@ func edRetractDetail(run *edRun) string {
 		if q.Rationale == r.Rationale {
 			continue
 		}
+		ty, rp := r.Rationale, q.Rationale
+		// the line's OWN comment texts must be the same in the in-memory tree and in the re-parse: a rationale
+		// that lost or gained the line's own text is never a recorded finding
+		if !edSameMultiset(fin[k].Before, re[k].Before) || !edSameMultiset(fin[k].Suffix, re[k].Suffix) {
+			return "retract-rationale"
+		}
+		// recorded finding "empty-block-suffix-comment": the line sits (sat) in a block carrying end-of-line
+		// comments, which Cleanup appended to the line when it collapsed the block
+		if bs := run.SuffixBlock[r.Syntax]; len(bs) > 0 {
+			if S := edSuffixText(bs); S != "" && (rp == S || rp == ty+"\n"+S) {
+				if known == "" {
+					known = edSigEmptyBlockSuffix
+				}
+				continue
+			}
+		}
+		// ROOT CAUSE of the recorded rationale findings: typed and re-parsed rationale differ exactly by the
+		// comment text B of a commented retract block that encloses the line now or enclosed it at some point
+		root := false
+		for _, B := range run.BlockTexts[r.Syntax] {
+			if B == "" {
+				// the block's comments are empty `//` lines: they contribute an empty text line, nothing else
+				if rp == "\n"+ty || ty == "\n"+rp {
+					root = true
+				}
+				continue
+			}
+			if rp == B || rp == B+"\n"+ty || ty == B+"\n"+rp || (ty == B && rp == "") {
+				root = true
+			}
+		}
+		if !root {
+			return "retract-rationale"
+		}
 		created := !run.StartPtr[r.Syntax]
 		b := blockOf[r.Syntax]
 		merged, wasCollapsed := run.Collapsed[r.Syntax]
+		sub := edSigOtherRoute
 		switch {
-		case r.Rationale == "" && created && b != nil && !edHasText(&r.Syntax.Comments) && edHasText(&b.Comments) &&
-			q.Rationale == edDirectiveText(&b.Comments):
-			if known == "" {
-				known = edSigInherited
-			}
-		case r.Rationale == "" && run.BlankOnly[r.Syntax] && !edHasText(&r.Syntax.Comments) &&
-			((b != nil && edHasText(&b.Comments) && q.Rationale == edDirectiveText(&b.Comments)) || (wasCollapsed && q.Rationale == merged)):
+		case ty == "" && created && b != nil && !edHasText(&r.Syntax.Comments) && edHasText(&b.Comments) &&
+			rp == edDirectiveText(&b.Comments):
+			sub = edSigInherited
+		case ty == "" && run.BlankOnly[r.Syntax] && !edHasText(&r.Syntax.Comments) &&
+			((b != nil && edHasText(&b.Comments) && rp == edDirectiveText(&b.Comments)) || (wasCollapsed && rp == merged)):
 			// the line's only "comment" in the starting file was a blank-line placeholder; the output no longer
 			// has that blank line in front of it, so the strict parser now lets it inherit the block's comments
-			if known == "" {
-				known = edSigBlank
-			}
-		case wasCollapsed && (q.Rationale == merged+"\n"+r.Rationale || (r.Rationale == "" && created && q.Rationale == merged)):
-			if known == "" {
-				known = edSigCollapsed
-			}
-		default:
-			return "retract-rationale"
+			sub = edSigBlank
+		case wasCollapsed && (rp == merged+"\n"+ty || (ty == "" && created && rp == merged)):
+			sub = edSigCollapsed
+		}
+		if known == "" {
+			known = sub
 		}
 	}
 	return known
